@@ -132,7 +132,9 @@ def c09_2(ctx):
     # ints and timedeltas
     ctx.count(1)
     i = [n for n in ast.walk(fn.node) if isinstance(n, ast.If) and N(n.test) == 'is_int(bump)']
-    if not i or N(i[0].body[0].value) not in (NS('t + DAY * bump'), NS('t + bump * DAY')):
+    def upd(a):     # the value t holds after `t = e` / `t += e`
+        return N(a.value) if isinstance(a, ast.Assign) else N(ast.BinOp(ast.Name('t', ast.Load()), a.op, a.value)) if isinstance(a, ast.AugAssign) and U(a.target) == 't' else None
+    if not i or upd(i[0].body[0]) not in (NS('t + DAY * bump'), NS('t + bump * DAY')):
         ctx.fail(fn, i[0] if i else fn.node, 'integer bumps no longer add that many days')
 
 
